@@ -134,6 +134,16 @@ def build(
     if any(inp.name not in inputs for inp in model_proto.graph.input):
         raise KeyError("Model requires additional inputs not provided in 'inputs'.")
 
+    if drop_unused_inputs:
+        # The used arguments were found by traversal, in arbitrary (set) order.
+        # List them in the relative order given in ``inputs``.
+        used = {info.name: info for info in model_proto.graph.input}
+        ordered = [used[name] for name in inputs if name in used]
+        del model_proto.graph.input[:]
+        model_proto.graph.input.extend(ordered)
+        # ``to_onnx_model`` checked the model before its inputs were re-listed: check what is returned.
+        onnx.checker.check_model(model_proto)
+
     return model_proto
 
 
